@@ -272,7 +272,7 @@ class Ctx:
             else:
                 state = self._state_before(module, cfg, path, idx * 100 + rnd + 50, line, timeout)
                 what = "event %d of the scenario is not a step of %s%s: %s" % (
-                    line - first + 1, module, (" [failed: " + "; ".join(failed) + "]") if failed else "",
+                    line - first, module, (" [failed: " + "; ".join(failed) + "]") if failed else "",
                     json.dumps(evs[min(line - 1 - first, len(evs) - 1)])[:300])
             self.violation(scn, evs, what, spec_state=state)
             rejects += 1
